@@ -83,6 +83,7 @@ class FortranPythonTransformation(Transformation):
         intrinsic_map = {
             'min': 'min', 'max': 'max', 'abs': 'abs',
             'exp': 'np.exp', 'sqrt': 'np.sqrt',
+            'mod': 'np.fmod',  # result has the sign of the dividend, like Fortran MOD
         }
         replace_intrinsics(routine, function_map=intrinsic_map)
 
